@@ -17,11 +17,22 @@ enum SrcSt { Idle, Pending, Live, Ended, Errored, Terminated }
 #[derive(Clone, Copy, PartialEq, Debug)]
 enum SinkSt { NotGreeted, Live, Ended, Disposed }
 
+/// the decision tape (shared by the two worlds of an overlapping-subscription scenario)
 #[derive(Default)]
-struct World {
+struct TapeSt {
     tape: Vec<u8>,
     pos: usize,
     exhausted_opts: Option<usize>, // number of options at the first choice past the end of the tape
+    quiet: bool, // set-up phase of a scenario with suffix Q: every decision is "nothing" and costs no tape
+}
+type Hook = Arc<dyn Fn() + Send + Sync>;
+#[derive(Default)]
+struct World {
+    ts: Arc<Mutex<TapeSt>>,
+    rec: Vec<u8>, // every decision taken by the peers of this world, in order: the tape that replays this world alone
+    val_base: u32,
+    nested_sub: Option<Hook>, // scenario suffix O: the second subscription may be started from inside a handler of the first
+    attach_hook: Option<Hook>, // scenario suffix A (share): a further sink may attach from inside a handler
     log: Vec<String>,
     violations: Vec<(String, String)>, // (property, what)
     srcs: Vec<SrcState>,
@@ -34,13 +45,17 @@ struct World {
     op_prop: Option<&'static str>, // the operator-specific property that also covers Pull routing
     resub: bool, // the second subscription of the same source value is running (scenario suffix R)
     cross: bool, // another member may act from inside a member's handler (members coupled behind the scenes)
+    ending: bool, // a source is inside the call that delivers its Terminate / Error
 }
 struct SrcState { st: SrcSt, sink: Option<Sink>, subs: u32, err: Option<String>, name: String, emitted: u32, pulls: u32, answers: u32, greet_pulls: Option<u32> }
-struct SinkState { st: SinkSt, tb: Option<Tb>, data: Vec<u32>, err: Option<String>, name: String, pulls: u32, attach_at: usize }
+struct SinkState { st: SinkSt, tb: Option<Tb>, data: Vec<u32>, err: Option<String>, name: String, pulls: u32, attach_at: usize, during_end: bool }
 type W = Arc<Mutex<World>>;
+/// texts of listed findings (--exclude); finding F13 is excluded by its class of histories (see the attach hook)
+static STOP_ON: Mutex<Vec<String>> = Mutex::new(Vec::new());
 
-fn choose(w: &W, n: usize) -> usize {
-    let mut g = w.lock().unwrap();
+fn choose_meta(ts: &Arc<Mutex<TapeSt>>, n: usize) -> usize {
+    let mut g = ts.lock().unwrap();
+    if g.quiet { return 0; }
     if g.pos < g.tape.len() {
         let c = g.tape[g.pos] as usize % n;
         g.pos += 1;
@@ -49,6 +64,12 @@ fn choose(w: &W, n: usize) -> usize {
         if g.exhausted_opts.is_none() { g.exhausted_opts = Some(n); }
         0
     }
+}
+fn choose(w: &W, n: usize) -> usize {
+    let ts = w.lock().unwrap().ts.clone();
+    let c = choose_meta(&ts, n);
+    w.lock().unwrap().rec.push(c as u8);
+    c
 }
 fn log(w: &W, s: String) { w.lock().unwrap().log.push(s); }
 fn violate(w: &W, p: &str, what: String) {
@@ -81,7 +102,7 @@ fn src_event(w: &W, j: usize, allow_nothing: bool) -> bool {
     match c {
         0 => false,
         1 => {
-            let v = { let mut g = w.lock().unwrap(); g.next_val += 1; g.srcs[j].emitted += 1; let v = g.next_val; let live = g.sinks.first().map(|s| s.st == SinkSt::Live).unwrap_or(false); g.emitted.push((j, v, live)); v };
+            let v = { let mut g = w.lock().unwrap(); g.next_val += 1; g.srcs[j].emitted += 1; let v = g.next_val + g.val_base; let live = g.sinks.first().map(|s| s.st == SinkSt::Live).unwrap_or(false); g.emitted.push((j, v, live)); v };
             log(w, format!("{} -> Data({})", w.lock().unwrap().srcs[j].name.clone(), v));
             sink(Message::Data(v));
             true
@@ -89,14 +110,18 @@ fn src_event(w: &W, j: usize, allow_nothing: bool) -> bool {
         2 => {
             { let mut g = w.lock().unwrap(); g.srcs[j].st = SrcSt::Ended; }
             log(w, format!("{} -> Terminate", w.lock().unwrap().srcs[j].name.clone()));
+            w.lock().unwrap().ending = true;
             sink(Message::Terminate);
+            w.lock().unwrap().ending = false;
             true
         }
         _ => {
             let e = format!("err-{}", w.lock().unwrap().srcs[j].name.clone());
             { let mut g = w.lock().unwrap(); g.srcs[j].st = SrcSt::Errored; g.srcs[j].err = Some(e.clone()); }
             log(w, format!("{} -> Error({})", w.lock().unwrap().srcs[j].name.clone(), e));
+            w.lock().unwrap().ending = true;
             sink(Message::Error(Arc::new(PuppetErr(e))));
+            w.lock().unwrap().ending = false;
             true
         }
     }
@@ -178,7 +203,9 @@ fn puppet_source(w: &W, j: usize) -> Source<u32> {
 fn new_sink(w: &W, name: &str) -> usize {
     let mut g = w.lock().unwrap();
     let at = g.emitted.len();
-    g.sinks.push(SinkState { st: SinkSt::NotGreeted, tb: None, data: vec![], err: None, name: name.to_string(), pulls: 0, attach_at: at });
+    // (share) the sink attaches while the end of the upstream subscription is still being handed round
+    let during_end = g.ending;
+    g.sinks.push(SinkState { st: SinkSt::NotGreeted, tb: None, data: vec![], err: None, name: name.to_string(), pulls: 0, attach_at: at, during_end });
     g.sinks.len() - 1
 }
 fn sink_action(w: &W, k: usize, allow_nothing: bool) -> bool {
@@ -215,14 +242,22 @@ fn sink_action(w: &W, k: usize, allow_nothing: bool) -> bool {
 fn sink_react(w: &W, k: usize) {
     while sink_action(w, k, true) {}
     cross_sink(w, k);
+    // scenario suffix O: the second subscription of the same source value may start from inside this handler
+    let (hook, ts) = { let g = w.lock().unwrap(); (g.nested_sub.clone(), g.ts.clone()) };
+    if let Some(h) = hook { if choose_meta(&ts, 2) == 1 { w.lock().unwrap().nested_sub = None; h(); } }
 }
 /// scenario suffix X with several sinks (share): the consumers may be coupled behind the scenes, so ANOTHER
 /// sink may act (pull / leave) while this one is being delivered to (also while it is being told the end)
+/// suffix A: .. and a further sink may attach from inside the handler, several such actions in a row
 fn cross_sink(w: &W, k: usize) {
-    let (cross, n) = { let g = w.lock().unwrap(); (g.cross, g.sinks.len()) };
-    if cross && n > 1 {
-        let c = choose(w, n + 1);
-        if c >= 1 && c - 1 != k { sink_action(w, c - 1, true); }
+    loop {
+        let (cross, n, hook) = { let g = w.lock().unwrap(); (g.cross, g.sinks.len(), g.attach_hook.clone()) };
+        if !(cross && (n > 1 || hook.is_some())) { break; }
+        let c = choose(w, n + 1 + hook.is_some() as usize);
+        if c == 0 { break; }
+        if c == n + 1 { hook.clone().unwrap()(); }
+        else if c - 1 != k { sink_action(w, c - 1, true); }
+        if hook.is_none() { break; }
     }
 }
 fn puppet_sink(w: &W, k: usize) -> Sink {
@@ -285,7 +320,7 @@ fn functional_checks(w: &W, op: &str) {
     let sink = &g.sinks[0];
     let ins: Vec<(usize, u32)> = g.emitted.iter().filter(|e| e.2).map(|e| (e.0, e.1)).collect();
     let vals: Vec<u32> = ins.iter().map(|e| e.1).collect();
-    let base = op.trim_end_matches(|c| c == 'L' || c == 'X' || c == 'P' || c == 'R');
+    let base = op.trim_end_matches(|c| SFX.contains(&c));
     let (prop, expected): (&str, Option<Vec<u32>>) = match base {
         "map" => ("C07", Some(vals.iter().map(|x| x + 100).collect())),
         "filter" => ("C07", Some(vals.iter().cloned().filter(|x| x % 2 == 0).collect())),
@@ -349,24 +384,38 @@ fn share_checks(w: &W) {
     let attached = g.sinks.iter().filter(|s| s.st == SinkSt::Live).count();
     let up_alive = g.srcs[0].st == SrcSt::Live || g.srcs[0].st == SrcSt::Pending;
     let mut v = vec![];
+    // (a violation that concerns only sinks which attached during the hand-round of an end is worded apart: finding F13)
+    let late = |s: &SinkState| if s.during_end { " (it attached while the end of the upstream was being handed round)" } else { "" };
     if attached == 0 && up_alive { v.push(("C12", "the upstream subscription is still alive although every sink has detached".to_string())); }
-    if attached > 0 && !up_alive { v.push(("C12", "a sink is attached but no upstream subscription is alive".to_string())); }
+    if attached > 0 && !up_alive {
+        if g.sinks.iter().filter(|s| s.st == SinkSt::Live).all(|s| s.during_end) { v.push(("C12", "a sink that attached while the end of the upstream was being handed round is attached but no upstream subscription is alive".to_string())); }
+        else { v.push(("C12", "a sink is attached but no upstream subscription is alive".to_string())); }
+    }
     // C05: with share, every attached sink receives the upstream failure
-    if g.srcs[0].st == SrcSt::Errored { for s in g.sinks.iter().filter(|s| s.st == SinkSt::Live) { v.push(("C05", format!("the upstream failed but {} was not told", s.name))); } }
+    // (a sink that attached once the failure had been emitted is the business of C12, not of C05)
+    if g.srcs[0].st == SrcSt::Errored { for s in g.sinks.iter().filter(|s| s.st == SinkSt::Live && !s.during_end) { v.push(("C05", format!("the upstream failed but {} was not told", s.name))); } }
     // every attached sink has every datum emitted since it attached (nested fan-out, finding F4, reorders them: compare as sets there)
     for s in g.sinks.iter().filter(|s| s.st == SinkSt::Live) {
         let exp: Vec<u32> = g.emitted[s.attach_at.min(g.emitted.len())..].iter().map(|e| e.1).collect();
         let mut a = s.data.clone(); a.sort(); let mut b = exp.clone(); b.sort();
-        if a != b { v.push(("C12", format!("{} is attached and has received {:?} of the data {:?} emitted since it attached", s.name, s.data, exp))); }
+        if a != b { v.push(("C12", format!("{} is attached and has received {:?} of the data {:?} emitted since it attached{}", s.name, s.data, exp, late(s)))); }
     }
     drop(g);
     for (p, what) in v { violate(w, p, what); }
 }
 
 // ------------------------------------------------------------------ scenarios
-fn build(op: &str, w: &W) -> Source<u32> {
-    let mk = |n: &str| { let j = new_source(w, n); puppet_source(w, j) };
-    let base = op.trim_end_matches(|c| c == 'L' || c == 'X' || c == 'P' || c == 'R');
+const SFX: [char; 7] = ['L', 'X', 'P', 'R', 'O', 'A', 'Q'];
+/// which world a new subscription of a puppet source belongs to (one world unless subscriptions overlap)
+type Sel = Arc<dyn Fn() -> W + Send + Sync>;
+fn puppet_source_sel(sel: &Sel, j: usize) -> Source<u32> {
+    // the same source VALUE serves every subscription; each subscription is played by the puppet of its own world
+    let sel = sel.clone();
+    (move |m: Message<never::Never, u32>| { let w = sel(); puppet_source(&w, j)(m) }).into()
+}
+fn build(op: &str, sel: &Sel, worlds: &[W]) -> Source<u32> {
+    let mk = |n: &str| { let mut j = 0; for w in worlds { j = new_source(w, n); } puppet_source_sel(sel, j) };
+    let base = op.trim_end_matches(|c| SFX.contains(&c));
     match base {
         "map" => callbag::map(|x: u32| x + 100)(mk("a")),
         "filter" => callbag::filter(|x: &u32| x % 2 == 0)(mk("a")),
@@ -385,29 +434,49 @@ fn build(op: &str, w: &W) -> Source<u32> {
         "flatten" => {
             // the outer is a puppet whose data are fresh puppet inner sources
             let outer = mk("outer");
-            let w2 = w.clone();
-            callbag::flatten(callbag::map(move |v: u32| { let j = new_source(&w2, &format!("inner{}", v)); puppet_source(&w2, j) })(outer))
+            let sel = sel.clone();
+            callbag::flatten(callbag::map(move |v: u32| { let w2 = sel(); let j = new_source(&w2, &format!("inner{}", v % 500)); puppet_source(&w2, j) })(outer))
         }
         _ => panic!("unknown scenario {}", op),
     }
 }
+fn new_world(op: &str, ts: &Arc<Mutex<TapeSt>>, val_base: u32) -> W {
+    Arc::new(Mutex::new(World { ts: ts.clone(), val_base, late: sfx(op).contains('L'), cross: sfx(op).contains('X'), pull_mode: sfx(op).contains('P'), op_prop: if op.starts_with("merge") { Some("C08") } else if op.starts_with("combine") { Some("C10") } else if op.starts_with("concat") { Some("C09") } else if op.starts_with("flatten") { Some("C11") } else { None }, ..Default::default() }))
+}
 struct Outcome { violations: Vec<(String, String)>, log: Vec<String>, exhausted: Option<usize>, panicked: Option<String> }
+fn panic_text(e: Box<dyn std::any::Any + Send>) -> String {
+    e.downcast_ref::<&str>().map(|s| s.to_string()).or_else(|| e.downcast_ref::<String>().cloned()).unwrap_or_else(|| "panic".into())
+}
 fn run(op: &str, tape: &[u8]) -> Outcome {
-    let w: W = Arc::new(Mutex::new(World { tape: tape.to_vec(), late: sfx(op).contains('L'), cross: sfx(op).contains('X'), pull_mode: sfx(op).contains('P'), op_prop: if op.starts_with("merge") { Some("C08") } else if op.starts_with("combine") { Some("C10") } else if op.starts_with("concat") { Some("C09") } else if op.starts_with("flatten") { Some("C11") } else { None }, ..Default::default() }));
+    if sfx(op).contains('O') { return run_overlap(op, tape); }
+    run_single(op, tape, 0)
+}
+fn run_single(op: &str, tape: &[u8], val_base: u32) -> Outcome {
+    let ts = Arc::new(Mutex::new(TapeSt { tape: tape.to_vec(), ..Default::default() }));
+    let w: W = new_world(op, &ts, val_base);
     let r = catch_unwind(AssertUnwindSafe(|| {
-        if op == "share2" || op == "share3" || op == "share3X" {
+        if op.starts_with("share") {
             let j = new_source(&w, "a");
             let shared = Arc::new(callbag::share(puppet_source(&w, j)));
-            let max_sinks = if op == "share2" { 2 } else { 3 };
+            let max_sinks = if op.starts_with("share2") { 2 } else { 3 };
             let names = ["sinkA", "sinkB", "sinkC"];
-            let attach = |w: &W| {
+            let attach: Arc<dyn Fn(&W) + Send + Sync> = Arc::new(move |w: &W| {
                 let k = w.lock().unwrap().sinks.len();
+                if k >= max_sinks { return; }
                 let s = new_sink(w, names[k]);
                 log(w, format!("{} subscribes", names[k]));
                 shared(Message::Handshake(puppet_sink(w, s)));
-            };
+            });
+            if sfx(op).contains('A') {
+                // (a weak reference: the hook lives in the world it acts on)
+                let (wk, attach) = (Arc::downgrade(&w), attach.clone());
+                // (while finding F13 is listed, its class of histories -- a sink attaches while the end of the upstream is being
+                // handed round -- is left out of the exploration: everything after it would be a consequence of F13)
+                let skip_f13 = STOP_ON.lock().unwrap().iter().any(|x| x.contains(&norm("attached while the end of the upstream was being handed round")));
+                w.lock().unwrap().attach_hook = Some(Arc::new(move || { if let Some(w) = wk.upgrade() { if skip_f13 && w.lock().unwrap().ending { return; } attach(&w) } }));
+            }
             attach(&w);
-            if op == "share2" { attach(&w); }
+            if op.starts_with("share2") { attach(&w); }
             share_checks(&w);
             for _ in 0..64 {
                 let n = w.lock().unwrap().sinks.len();
@@ -418,9 +487,11 @@ fn run(op: &str, tape: &[u8]) -> Outcome {
                 else { sink_action(&w, c - 3, false); }
                 share_checks(&w);
             }
+            w.lock().unwrap().attach_hook = None;
             return;
         }
-        let source = build(op, &w);
+        let sel: Sel = { let w = w.clone(); Arc::new(move || w.clone()) };
+        let source = build(op, &sel, &[w.clone()]);
         let mut resubscribed = false;
         let k = new_sink(&w, "sink");
         log(&w, "sink subscribes".into());
@@ -431,12 +502,7 @@ fn run(op: &str, tape: &[u8]) -> Outcome {
             let n = w.lock().unwrap().srcs.len();
             let c = choose(&w, 2 + n);
             if c == 0 { break; }
-            if c == 1 { sink_action(&w, k, false); }
-            else {
-                let j = c - 2;
-                let st = w.lock().unwrap().srcs[j].st;
-                if st == SrcSt::Pending { src_greet(&w, j); } else { src_event(&w, j, false); }
-            }
+            top_level_action(&w, c);
             quiescent_checks(&w, true);
             functional_checks(&w, op);
             // scenario suffix R (C13): once the first subscription is over on both sides, the SAME source value is
@@ -460,13 +526,101 @@ fn run(op: &str, tape: &[u8]) -> Outcome {
         }
     }));
     let mut g = w.lock().unwrap_or_else(|e| e.into_inner());
-    let panicked = r.err().map(|e| e.downcast_ref::<&str>().map(|s| s.to_string()).or_else(|| e.downcast_ref::<String>().cloned()).unwrap_or_else(|| "panic".into()));
+    let panicked = r.err().map(panic_text);
     if let Some(p) = &panicked { g.violations.push(("C17".into(), format!("panic: {}", p))); }
-    Outcome { violations: g.violations.clone(), log: g.log.clone(), exhausted: g.exhausted_opts, panicked }
+    let exhausted = ts.lock().unwrap_or_else(|e| e.into_inner()).exhausted_opts;
+    let out = Outcome { violations: g.violations.clone(), log: g.log.clone(), exhausted, panicked };
+    // (the peers hold each other through the world: break the cycles so that a run frees its memory)
+    g.srcs.clear(); g.sinks.clear(); g.attach_hook = None; g.nested_sub = None;
+    out
+}
+/// top-level decision c >= 1 of one world: 1 = the sink acts, 2 + j = source j acts (greets, if its greeting is due)
+fn top_level_action(w: &W, c: usize) {
+    if c == 1 { sink_action(w, 0, false); }
+    else {
+        let j = c - 2;
+        let st = w.lock().unwrap().srcs[j].st;
+        if st == SrcSt::Pending { src_greet(w, j); } else { src_event(w, j, false); }
+    }
+}
+/// scenario suffix O (C13): TWO subscriptions of the same source value overlap, each played by the puppets of its
+/// own world (own peers, own monitors).  The second one starts at a tape-chosen moment, possibly from inside a
+/// handler of the first.  Besides the monitors of each world, the oracle is the property statement itself:
+/// the decisions taken by the peers of each world are recorded and replayed on a fresh value of the same
+/// operator subscribed ONCE; what the peers of that world saw must be the same, line for line.
+fn run_overlap(op_full: &str, tape: &[u8]) -> Outcome {
+    let base = op_full.trim_end_matches(|c| SFX.contains(&c));
+    let op: String = format!("{}{}", base, sfx(op_full).replace('O', "").replace('Q', ""));
+    let quiet_setup = sfx(op_full).contains('Q');
+    let ts = Arc::new(Mutex::new(TapeSt { tape: tape.to_vec(), ..Default::default() }));
+    let ws: Vec<W> = (0..2).map(|i| new_world(&op, &ts, 500 * i as u32)).collect();
+    let cur = Arc::new(std::sync::atomic::AtomicUsize::new(0));
+    use std::sync::atomic::Ordering::SeqCst;
+    let sel: Sel = { let (ws, cur) = (ws.clone(), cur.clone()); Arc::new(move || ws[cur.load(SeqCst)].clone()) };
+    let r = catch_unwind(AssertUnwindSafe(|| {
+        let source = Arc::new(build(&op, &sel, &ws));
+        let subscribe: Arc<dyn Fn(usize) + Send + Sync> = { let (ws, cur) = (ws.clone(), cur.clone()); Arc::new(move |i: usize| {
+            if !ws[i].lock().unwrap().sinks.is_empty() { return; }
+            let prev = cur.swap(i, SeqCst);
+            let k = new_sink(&ws[i], "sink");
+            log(&ws[i], "sink subscribes".into());
+            source(Message::Handshake(puppet_sink(&ws[i], k)));
+            cur.store(prev, SeqCst);
+        }) };
+        { let s = subscribe.clone(); ws[0].lock().unwrap().nested_sub = Some(Arc::new(move || s(1))); }
+        let checks = |ws: &Vec<W>| { for w in ws { if !w.lock().unwrap().sinks.is_empty() { quiescent_checks(w, true); functional_checks(w, &op); } } };
+        // (suffix Q: both subscriptions are started up front, everybody greeting at once and staying passive)
+        ts.lock().unwrap().quiet = quiet_setup;
+        subscribe(0);
+        if quiet_setup { subscribe(1); }
+        ts.lock().unwrap().quiet = false;
+        checks(&ws);
+        for _ in 0..64 {
+            let n0 = ws[0].lock().unwrap().srcs.len();
+            let (sub1, n1) = { let g = ws[1].lock().unwrap(); (!g.sinks.is_empty(), g.srcs.len()) };
+            let opts1 = if sub1 { 1 + n1 } else { 1 };
+            let c = choose_meta(&ts, 1 + (1 + n0) + opts1);
+            if c == 0 { break; }
+            let (i, lc) = if c <= 1 + n0 { (0, c) } else { (1, c - (1 + n0)) };
+            if i == 1 && !sub1 { subscribe(1); }
+            else {
+                cur.store(i, SeqCst);
+                ws[i].lock().unwrap().rec.push(lc as u8);
+                top_level_action(&ws[i], lc);
+            }
+            checks(&ws);
+        }
+    }));
+    for w in &ws { let mut g = w.lock().unwrap_or_else(|e| e.into_inner()); g.nested_sub = None; }
+    let panicked = r.err().map(panic_text);
+    let mut violations = vec![]; let mut lg = vec![];
+    for (i, w) in ws.iter().enumerate() {
+        let g = w.lock().unwrap_or_else(|e| e.into_inner());
+        if g.sinks.is_empty() { continue; }
+        for (p, what) in g.violations.iter() { violations.push((p.clone(), format!("subscription {}: {}", i + 1, what))); }
+        lg.push(format!("==== what the peers of subscription {} saw (overlapping with the other one)", i + 1));
+        lg.extend(g.log.iter().cloned());
+        if panicked.is_none() {
+            let solo = run_single(&op, &g.rec, g.val_base);
+            // (what the peers saw and did; the lines of the monitors are not part of it)
+            let seen = |l: &Vec<String>| l.iter().filter(|x| !x.starts_with("!!")).cloned().collect::<Vec<_>>();
+            let (mine, alone) = (seen(&g.log), seen(&solo.log));
+            if mine != alone {
+                let d = (0..mine.len().max(alone.len())).find(|&x| mine.get(x) != alone.get(x)).unwrap();
+                violations.push(("C13".into(), format!("subscription {} of the same source value, overlapping with another one, saw {:?} where the same peers making the same decisions see {:?} when it is the only subscription (line {})", i + 1, mine.get(d).map(|s| s.as_str()).unwrap_or("<nothing more>"), alone.get(d).map(|s| s.as_str()).unwrap_or("<nothing more>"), d + 1)));
+                lg.push(format!("==== what the same peers see, same decisions, when subscription {} is the only one", i + 1));
+                lg.extend(solo.log.iter().cloned());
+            }
+        }
+    }
+    if let Some(p) = &panicked { violations.push(("C17".into(), format!("panic: {}", p))); }
+    for w in &ws { let mut g = w.lock().unwrap_or_else(|e| e.into_inner()); g.srcs.clear(); g.sinks.clear(); }
+    let exhausted = ts.lock().unwrap_or_else(|e| e.into_inner()).exhausted_opts;
+    Outcome { violations, log: lg, exhausted, panicked }
 }
 /// the profile letters at the end of a scenario name (L late greeting, X cross-member activity, P pull mode, R re-subscription)
 fn sfx(op: &str) -> &str {
-    let base = op.trim_end_matches(|c| c == 'L' || c == 'X' || c == 'P' || c == 'R');
+    let base = op.trim_end_matches(|c| SFX.contains(&c));
     &op[base.len()..]
 }
 fn norm(s: &str) -> String {
@@ -532,6 +686,7 @@ fn main() {
             let mut want: Option<String> = None; let mut pat: Option<String> = None; let mut excl: Vec<String> = vec![]; let mut len = 9usize; let mut budget: u64 = 3_000_000;
             let mut i = 3;
             while i + 1 < a.len() { match a[i].as_str() { "--property" => want = Some(a[i + 1].clone()), "--match" => pat = Some(a[i + 1].clone()), "--exclude" => excl.push(a[i + 1].clone()), "--len" => len = a[i + 1].parse().unwrap(), "--budget" => budget = a[i + 1].parse().unwrap(), _ => {} } i += 2; }
+            *STOP_ON.lock().unwrap() = excl.iter().map(|x| norm(x)).collect();
             let total = budget;
             let mut best = None;
             // iterative deepening: shortest failing tape first
@@ -548,6 +703,7 @@ fn main() {
             let mut excl: Vec<String> = vec![]; let mut len = 10usize; let mut budget: u64 = 3_000_000; let mut start: Vec<u8> = vec![];
             let mut i = 3;
             while i + 1 < a.len() { match a[i].as_str() { "--exclude" => excl.push(a[i + 1].clone()), "--len" => len = a[i + 1].parse().unwrap(), "--budget" => budget = a[i + 1].parse().unwrap(), "--prefix" => start = serde_json::from_str(&a[i + 1]).expect("prefix must be a JSON array of bytes"), _ => {} } i += 2; }
+            *STOP_ON.lock().unwrap() = excl.iter().map(|x| norm(x)).collect();
             let total = budget;
             let mut hits = std::collections::BTreeMap::new();
             // (with --prefix every tape explored starts with that setup; --len counts the whole tape)
